@@ -83,7 +83,8 @@ func c01GenCase(r *vc.Rand, idx int, kinds []string, prefix string) *atCase {
 				o.mixedArgs = r.Intn(3) == 0
 				grp.Stmts = append(grp.Stmts, atGenInsert(r, t, o, 2+r.Intn(2), &seq))
 			case 5:
-				if r.Intn(3) == 0 {
+				o.nullThenUqHit = t.Uniq >= 0 && r.Intn(3) == 0
+				if r.Intn(3) == 0 || o.nullThenUqHit {
 					grp.Stmts = append(grp.Stmts, atGenUpsertMulti(r, t, o, &seq))
 				} else {
 					grp.Stmts = append(grp.Stmts, atGenUpsert(r, t, o, r.Bool(), &seq))
